@@ -322,6 +322,7 @@ class QueryScheduler:
         '_next_scheduled_for_alias',
         '_query_heap',
         '_next_run',
+        '_next_run_not_before_millis',
         '_clock_resolution_millis',
         '_question_type',
     )
@@ -349,6 +350,7 @@ class QueryScheduler:
         self._next_scheduled_for_alias: Dict[str, _ScheduledPTRQuery] = {}
         self._query_heap: list[_ScheduledPTRQuery] = []
         self._next_run: Optional[asyncio.TimerHandle] = None
+        self._next_run_not_before_millis: float = 0.0
         self._clock_resolution_millis = time.get_clock_info('monotonic').resolution * 1000
         self._question_type = question_type
 
@@ -388,6 +390,20 @@ class QueryScheduler:
         """Schedule a query for a pointer."""
         self._next_scheduled_for_alias[scheduled_query.alias.lower()] = scheduled_query
         heappush(self._query_heap, scheduled_query)
+        if (
+            self._next_run is not None
+            and self._loop is not None
+            and self._startup_queries_sent >= STARTUP_QUERIES
+            and self._query_heap[0] is scheduled_query
+        ):
+            # The scheduler is sleeping until a later query is due: wake it up
+            # for this one instead, but never sooner than the minimum time
+            # between queries allows.
+            self._next_run.cancel()
+            self._next_run = self._loop.call_at(
+                millis_to_seconds(max(scheduled_query.when_millis, self._next_run_not_before_millis)),
+                self._process_ready_types,
+            )
 
     def cancel_ptr_refresh(self, pointer: DNSPointer) -> None:
         """Cancel a query for a pointer."""
@@ -448,8 +464,9 @@ class QueryScheduler:
         # switch to a strategy of sending queries only when we
         # need to refresh records that are about to expire
         if self._startup_queries_sent >= STARTUP_QUERIES:
+            self._next_run_not_before_millis = now_millis + self._min_time_between_queries_millis
             self._next_run = self._loop.call_at(
-                millis_to_seconds(now_millis + self._min_time_between_queries_millis),
+                millis_to_seconds(self._next_run_not_before_millis),
                 self._process_ready_types,
             )
             return
@@ -466,6 +483,8 @@ class QueryScheduler:
             return
 
         now_millis = current_time_millis()
+        # The timer that got us here is spent; the next one is armed below
+        self._next_run = None
         # Refresh records that are about to expire (aka
         # _EXPIRE_REFRESH_TIME_PERCENT which is currently 75% of the TTL) and
         # additional rescue queries if the 75% query failed to refresh the record
@@ -497,10 +516,15 @@ class QueryScheduler:
         for query in schedule_rescue:
             self.schedule_rescue_query(query, now_millis, RESCUE_RECORD_RETRY_TTL_PERCENTAGE)
 
+        if self._query_heap:
+            # A rescue query may be due before the query the loop stopped at
+            next_scheduled = self._query_heap[0]
+
         if ready_types:
             self.async_send_ready_queries(False, now_millis, ready_types)
 
         next_time_millis = now_millis + self._min_time_between_queries_millis
+        self._next_run_not_before_millis = next_time_millis
 
         if next_scheduled is not None and next_scheduled.when_millis > next_time_millis:
             next_when_millis = next_scheduled.when_millis
